@@ -95,7 +95,10 @@ class GunicornWebWorker(base.Worker):  # type: ignore[misc,no-any-unimported]
                 access_log_format=self._get_valid_log_format(
                     self.cfg.access_log_format
                 ),
-                shutdown_timeout=self.cfg.graceful_timeout / 100 * 95,
+                # The runner spends shutdown_timeout twice (wait for handlers,
+                # then cancel them and wait again) before it runs the cleanup;
+                # the arbiter kills the worker after graceful_timeout.
+                shutdown_timeout=self.cfg.graceful_timeout / 2 / 100 * 95,
             )
         try:
             await runner.setup()
